@@ -675,6 +675,27 @@ def executed_layout(ctx, quick):
             ctx.count("executed-generic-arrays." + ep.name)
             rt.judge(ctx, mg, gproto, gvals, gdata, r, ep.name, "bin", "arrays of one generic record with bulk-copied and varint-encoded arguments through %s (set %d)" % (ep.name, k), {"executed": True})
     mg.close()
+    # arrays whose elements are dates / times / datetimes (varints in the format, 64-bit numpy scalars in Python), alone, in fixed shapes, in records that
+    # otherwise hold bulk-copied fields only, and in fixed vectors: a target that copies their memory instead of encoding them disagrees with the plan
+    dt, tm, da = P("datetime"), P("time"), P("date")
+    tick = Rec("LtTick", [("at", dt), ("level", f64t)])
+    tpkg = Pkg("LayoutTime", [tick, Rec("LtSpan", [("begin", tm), ("end", tm), ("day", da)]),
+                              Proto("LtP", [("stampList", V(dt)), ("stampArray", A(dt, 1)), ("grid", A(tm, ((None, 2), (None, 3)))), ("anyRank", A(dt, None)), ("days", A(da, 2)),
+                                            ("ticks", A(N("LtTick"), 1)), ("spans", A(N("LtSpan"), 2)), ("pairs", A(V(dt, 2), 1)), ("blocks", S(A(tm, 2))), ("tickItems", S(A(N("LtTick"), 1)))])])
+    mt = rt.prepare_model(ctx, "c14x_layouttime", tpkg, ["plain"])
+    if mt is None:
+        raise Inconclusive("time layout model did not build")
+    tproto = tpkg.find("LtP")
+    for k in range(3 if quick else 8):
+        tvals = values.ValueGen(mt.codec, rng("C14t", k), quiet_nan_only=True, py_safe=True).steps(tproto, stream_len=3)
+        tdata = mt.codec.encode_stream(tproto, mt.schema("LtP"), tvals)
+        ctx.case(("executed-layout-time-arrays", k))
+        for ep in (rt.CppEndpoint(mt, "plain"), rt.PyEndpoint(mt), rt.PyEndpoint(mt, mode="list"), rt.PyEndpoint(mt, mode="fortran")):
+            r = ep.copy("LtP", "bin", "bin", tdata)
+            ctx.ev()
+            ctx.count("executed-time-arrays." + ep.name)
+            rt.judge(ctx, mt, tproto, tvals, tdata, r, ep.name, "bin", "arrays of dates / times / datetimes and of records holding them through %s (set %d)" % (ep.name, k), {"executed": True})
+    mt.close()
     m = rt.prepare_model(ctx, "c14x_layout", pkg, ["plain"])
     if m is None:
         raise Inconclusive("layout model did not build")
